@@ -155,7 +155,9 @@ class MemWriter:
         self.closed = True
 
     async def wait_closed(self) -> None:
-        return None
+        # a real StreamWriter.wait_closed() is an await point: a task that was cancelled by its own close() gets the
+        # CancelledError here
+        await asyncio.sleep(0)
 
     def is_closing(self) -> bool:
         return self.closed
